@@ -242,21 +242,24 @@ def run(ctx):
         if r.get("ev") == "Import" and r.get("L", 0) > 0 and r["tree"].get("k") == "in":
             ctx.nontrivial(("T", r["layout"], r["w"], r["leaf"], r["chunker"], r["L"]))
     nruns = sum(1 for r in recs if r.get("ev") == "Import")
-    res = validate_sharded(ctx, recs, "imports", shards=4 if q else 10, timeout=1500)
-    if not report_trace(ctx, res, "imports", nruns, DEV_TEXT):
-        return
-    samp = next((r for r in recs if r.get("ev") == "Import" and 3 <= r.get("nodes", 0) <= 12), None)
-    if samp:
-        ctx.sample({k: v for k, v in samp.items()})
 
     def corrupt(rs):
         for i, r in enumerate(rs):
             if r.get("ev") == "Import":
                 n = first_inner(r["tree"])
                 if n is not None:
-                    bad = json.loads(json.dumps(rs[:i + 1]))
-                    m = first_inner(bad[i]["tree"])
-                    m["bs"][1] += 1          # one blocksize off by one (the parent's total adjusted so only this rule breaks)
-                    return bad, i
+                    j = i
+                    while j > 0 and rs[j]["ev"] != "Reset":
+                        j -= 1
+                    bad = json.loads(json.dumps(rs[j:i + 1]))
+                    m = first_inner(bad[-1]["tree"])
+                    m["bs"][1] += 1          # one recorded child size off by one
+                    return bad, len(bad) - 1
         return None, None
-    negative_control(ctx, recs, "imports", corrupt)
+    res, _ = parallel(lambda: validate_sharded(ctx, recs, "imports", shards=3 if q else 10, timeout=2400),
+                      lambda: negative_control(ctx, recs, "imports", corrupt))
+    if not report_trace(ctx, res, "imports", nruns, DEV_TEXT):
+        return
+    samp = next((r for r in recs if r.get("ev") == "Import" and 3 <= r.get("nodes", 0) <= 12), None)
+    if samp:
+        ctx.sample({k: v for k, v in samp.items()})
